@@ -369,6 +369,14 @@ def check_C18(chk):
                 chk.failing_input("a send carrying a %d-byte region was parked (4 MiB of data, receiver not reading yet) while another region of the same length was created, then "
                                   "the receiver read: %s" % (r["len"], what), {"build": fl, "record": r}, key="parked:%s:%d" % (fl, r["len"]))
         chk.coverage.setdefault("parked_send_scenarios", {})[fl] = len(pk)
+    # names that do not fit the 108 bytes of sockaddr_un handed to connect(): an error, never a write past the structure
+    lrecs, _, lrc, lerr = C.run_harness(bins["default"], "res", ["scen name=connect_long n=4"], shim=False, timeout=120)
+    lr = next((r for r in lrecs if r.get("kind") == "scen" and r.get("name") == "connect_long"), None)
+    if lr is None:
+        chk.failing_input("connect() with names of 107..300 bytes: the process did not survive (rc=%s): %s" % (lrc, lerr[-300:]), {"scenario": "connect_long"}, key="c18:connect_long")
+    elif lr.get("notes"):
+        chk.failing_input("connect() with names of 107..300 bytes: %s" % lr["notes"][:3], {"record": lr}, key="c18:connect_long:notes")
+    chk.coverage["over_long_name_scenarios"] = 0 if lr is None else 1
     fails, bad = judge(chk, items, False, "c18", near_boundary)
     # buffer discipline read off the receiver traces: every kernel write lies inside the offered buffer
     over = [it for it in items if it["recv_obs"] and any(got > want for want, got in it["recv_obs"]["reads"])]
